@@ -604,6 +604,8 @@ func driveLease(opt *Options) error {
 			scs = append(scs, leaseScenario{Kind: "slowreply", TTL: ttl, Periods: 2, Phase: 2})
 		}
 	default:
+		// a long tenure: dozens of renewals in a row (quick: 30 lease periods of 200 ms; thorough: 60 of 150 ms)
+		scs = append(scs, leaseScenario{Kind: "hold", TTL: ttls[0], Periods: map[bool]int{false: 30, true: 60}[opt.Extra["tier"] == "thorough"]})
 		for _, ttl := range ttls {
 			scs = append(scs, leaseScenario{Kind: "hold", TTL: ttl, Periods: 6 + rnd.Intn(6)})
 			for k := 1; k <= 5; k++ {
